@@ -136,6 +136,8 @@ pub(crate) mod fakesimd;
 pub(crate) mod lpc;
 #[cfg(feature = "par")]
 pub(crate) mod par;
+#[cfg(all(flacenc_verif, feature = "par"))]
+pub mod verif_hook;
 pub(crate) mod repeat;
 pub(crate) mod rice;
 #[cfg(any(test, feature = "__export_sigen"))]
